@@ -100,9 +100,15 @@ def _alts(ev, unroll, exc, limit):
         for n in range(1, unroll + 1):
             for combo in itertools.product(body, repeat=n):
                 p = Path()
+                broke = False
                 for part in combo:
-                    if p.exit is None:
+                    if p.exit is None and not broke:
                         p = p.extend(part.guards, part.events, part.exit)
+                        if p.exit == "continue":
+                            p = Path(p.guards, p.events, None)
+                        elif p.exit == "break":
+                            p = Path(p.guards, p.events, None)
+                            broke = True
                 alts.append(p)
                 if len(alts) > limit:
                     raise ir.Unsupported(f"path explosion in loop at line {ev.line}")
@@ -135,6 +141,8 @@ def _alts(ev, unroll, exc, limit):
         return [Path((), (ev,), "return")]
     if isinstance(ev, ir.Raise):
         return [Path((), (ev,), "raise")]
+    if isinstance(ev, ir.Jump):
+        return [Path((), (ev,), ev.kind)]
     return [Path((), (ev,), None)]
 
 
